@@ -111,7 +111,9 @@ func factsRoute() {
 		}
 		order, failPath, capture := false, false, false
 		refresh := 0
-		if ifNotOk != nil {
+		if ifNotOk == nil {
+			unrec(g, "routeUDPDeleteSites", "RouteUDP: `stream, ok := streams[addr.String()]` under streamsMutex followed by `if !ok {...} else {...}` not found")
+		} else {
 			missBody := ifNotOk.Body
 			var hitBody *ast.BlockStmt
 			if b, ok := ifNotOk.Else.(*ast.BlockStmt); ok {
@@ -120,7 +122,9 @@ func factsRoute() {
 			if swapped {
 				missBody, hitBody = hitBody, ifNotOk.Body
 			}
-			if missBody != nil && hitBody != nil {
+			if missBody == nil || hitBody == nil {
+				unrec(g, "routeUDPDeleteSites", "RouteUDP: the table lookup's `if` has no else branch")
+			} else {
 				be := g14blockEvents(missBody)
 				iNew := idx(be, 0, "assign", `^sesh = newSeshFunc\(\)$`)
 				iNewIf := idx(be, 0, "if", `^singleplex$`)
